@@ -44,8 +44,10 @@ def pick_scenario(ch: M.Chooser, tier: str, with_faults: bool = True) -> dict:
     classes = CLASSES if scn["channel"] == "file" else [c for c in CLASSES if c not in ("missing", "directory")]
     scn["cls"] = classes[ch.choice("cls", len(classes))]
     scn["fmt"] = ["json", "csv"][ch.choice("fmt", 2)]
-    scn["verbose"] = ch.flag("verbose")
-    scn["quiet"] = ch.flag("quiet")
+    # -o/--output: none | a new file | an existing file (with and without --force)
+    scn["output"] = [None, "new", "existing", "existing-force"][ch.choice("output", 4)]
+    scn["verbose"] = ch.flag("verbose") if scn["output"] is None else False
+    scn["quiet"] = ch.flag("quiet") if scn["output"] is None else False
     scn["outcome"] = ch.choice("outcome", 2)
     if scn["cls"] == "blank":
         scn["outcome"] = 1  # a project text without content is rejected by the engine (parse error)
@@ -62,6 +64,13 @@ def expected(scn: dict, fault_ops: list[int], input_ops: set[int], ambiguous_ops
     bad_input = cls in ("missing", "directory", "empty") or (chan != "file" and cls == "blank")
     input_fault = any(i in input_ops for i in fault_ops)
     other_fault = any(i not in input_ops for i in fault_ops)
+    if scn.get("output") == "existing" and not bad_input:
+        # refusing to overwrite may legitimately be reported before or after anything else goes wrong
+        base = {2, 3}
+        if input_fault:
+            base |= {1}
+        if fault_ops or cls in ("invalid_utf8", "blank") or scn["outcome"] == 1:
+            return {"codes": base | {2}}
     if bad_input or (input_fault and not other_fault):
         return {"codes": {1}}
     if input_fault and other_fault:
@@ -73,7 +82,9 @@ def expected(scn: dict, fault_ops: list[int], input_ops: set[int], ambiguous_ops
     if cls == "blank":  # a file of blanks is not empty: it is a project without content -> generation fails
         return {"codes": {2}}
     if scn["outcome"] == 1 or not scn.get("emit_auto", True):
-        return {"codes": {2}}
+        return {"codes": {2, 3} if scn.get("output") == "existing" else {2}}
+    if scn.get("output") == "existing":
+        return {"codes": {2, 3}}  # the help text documents 3, the error class used maps to 2
     return {"codes": {0}}
 
 
@@ -86,6 +97,13 @@ def judge_c19(scn: dict, obs: dict, exp: dict, input_bytes: Optional[bytes]) -> 
     if code not in exp["codes"]:
         f.append(f"exit code {code}, contract says {sorted(exp['codes'])}")
     out = "".join(obs["stdout"])
+    if code == 0 and scn.get("output"):
+        if out.strip():
+            f.append("report written to stdout although -o was given")
+        out = obs.get("output_file")
+        if out is None:
+            f.append("exit 0 but the -o file was not written")
+            return f
     if code != 0:
         if out.strip():
             f.append("non-report text on stdout on a failing run")
@@ -146,9 +164,14 @@ def model_run(ch: M.Chooser, scn: dict, seed: str = "A", world: Optional[M.World
     engine = M.make_engine(w, scn["outcome"], scn["users"], scn.get("emit_auto", True))
     fn = plan.report.callback.__wrapped__
     obs: dict[str, Any] = {"crash": None}
+    out_arg = None
+    if scn.get("output"):
+        out_arg = "/work/out." + scn["fmt"]
+        if scn["output"].startswith("existing"):
+            w.files[out_arg] = b"OLD"
     with M.install(w, plan, engine):
         try:
-            fn(M.Ctx(scn["verbose"], scn["quiet"]), arg, scn["fmt"] == "csv", None, False)
+            fn(M.Ctx(scn["verbose"], scn["quiet"]), arg, scn["fmt"] == "csv", out_arg, scn.get("output") == "existing-force")
             obs["exit_code"] = None
             obs["crash"] = "return without exit"
         except SystemExit as e:
@@ -161,8 +184,12 @@ def model_run(ch: M.Chooser, scn: dict, seed: str = "A", world: Optional[M.World
     mine = w.created[created0:]
     temps = [p for p in mine if p.startswith("/tmp/plan_")]
     obs["stdout"], obs["stderr"] = list(w.stdout), list(w.stderr)
-    obs["leftovers"] = [p for p in mine if w.exists(p)]
-    obs["outside"] = [p for p in mine if not any(p == t or p.startswith(t + "/") for t in temps)]
+    obs["leftovers"] = [p for p in mine if w.exists(p) and p != out_arg]
+    obs["outside"] = [p for p in mine if not any(p == t or p.startswith(t + "/") for t in temps) and p != out_arg]
+    if out_arg and out_arg in w.files and w.files[out_arg] != b"OLD":
+        obs["output_file"] = w.files[out_arg].decode("utf-8", "replace")
+    if scn.get("output") == "existing" and w.files.get(out_arg) != b"OLD":
+        obs["overwrote"] = True
     obs["footprint"] = sorted({p for op, p in w.touched[touched0:] if op in ("open-write", "fdopen", "engine-write", "unlink", "rmtree")} | set(mine))
     obs["reads"] = sorted({p for op, p in w.touched[touched0:] if op in ("open-read", "engine-read", "stat", "glob")})
     return obs, w, data
@@ -220,6 +247,9 @@ if "stdin-read" in faults:
 args = ["report"] + (["--csv"] if scn["fmt"] == "csv" else [])
 if scn.get("verbose"): args = ["--verbose"] + args
 if scn.get("quiet"): args = ["--quiet"] + args
+if scn.get("output"):
+    args += ["--output", scn["real_out"]]
+    if scn["output"] == "existing-force": args.append("--force")
 if scn["channel"] == "file": args.append(scn["real_path"])
 elif scn["channel"] == "stdin-dash": args.append("-")
 plan.cli.main(args=args, prog_name="plan")
@@ -243,6 +273,12 @@ def real_run(scn: dict, real_faults: Optional[dict] = None, py: str = sys.execut
                     f.write(data)
         s2 = dict(scn)
         s2["real_path"] = real_path
+        real_out = os.path.join(root, "out", "out." + scn["fmt"])
+        os.makedirs(os.path.dirname(real_out))
+        s2["real_out"] = real_out
+        if str(scn.get("output") or "").startswith("existing"):
+            with open(real_out, "wb") as f:
+                f.write(b"OLD")
         s2["real_faults"] = real_faults or {}
         env = dict(os.environ)
         env["TMPDIR"] = tmpd
@@ -253,6 +289,11 @@ def real_run(scn: dict, real_faults: Optional[dict] = None, py: str = sys.execut
         out_cwd = sorted(os.listdir(cwd))
         obs = {"exit_code": p.returncode, "stdout": [p.stdout.decode("utf-8", "replace")], "stderr": [p.stderr.decode("utf-8", "replace")],
                "leftovers": left, "outside": out_cwd, "crash": None}
+        if scn.get("output") and os.path.exists(real_out):
+            with open(real_out, "rb") as f:
+                ob = f.read()
+            if ob != b"OLD":
+                obs["output_file"] = ob.decode("utf-8", "replace")
         if b"Traceback (most recent call last)" in p.stderr and p.returncode == 1:
             obs["crash"] = p.stderr.decode("utf-8", "replace").strip().splitlines()[-1]
         return obs, data
